@@ -67,6 +67,9 @@ func (sc *SchemaCache) schema(src protoreflect.MessageDescriptor) (RootSchema, e
 	packageName, nameInPackage := splitDescriptorName(src)
 	schemaPackage := sc.referencePackage(packageName)
 	if built, ok := schemaPackage.Schemas[nameInPackage]; ok {
+		if err := built.claim(src); err != nil {
+			return nil, err
+		}
 		if built.To == nil {
 			// When building from reflection, the 'to' should be linked by the
 			// caller which created the ref.
@@ -78,6 +81,7 @@ func (sc *SchemaCache) schema(src protoreflect.MessageDescriptor) (RootSchema, e
 	placeholder := &RefSchema{
 		Package: schemaPackage,
 		Schema:  nameInPackage,
+		source:  src.FullName(),
 	}
 	schemaPackage.Schemas[nameInPackage] = placeholder
 	sc.building = append(sc.building, placeholder)
